@@ -604,7 +604,17 @@ class Gen(object):
                     self.wide_now = False
                     if cond is None:
                         srcs.append(Src((name,), 0, 1, "bool"))
-                elif vk < 0.62:
+                elif vk < 0.63 and [g for g in fields if g.kind in ("phys", "virtual")]:
+                    # presence of an earlier field as a value (later conditions may build on it)
+                    g = r.choice([g for g in fields if g.kind in ("phys", "virtual")])
+                    f = Field(name, "virtual", expr=op("$present", ref(g.name)), cond=cond)
+                    if cond is None:
+                        srcs.append(Src((name,), 0, 1, "bool"))
+                elif vk < 0.69:
+                    # the structure's own size as a value (never a source: nothing the size depends on may use it)
+                    c = r.choice([0, 1, 8, 255])
+                    f = Field(name, "virtual", expr=op(r.choice(["+", "-", "*"]), ref("$size_in_bytes"), num(c)) if c else ref("$size_in_bytes"))
+                elif vk < 0.74:
                     v = r.choice([0, 1, 7, 255, 65536, -1, 2 ** 31, 2 ** 32, 2 ** 63 - 1, -(2 ** 63)])
                     f = Field(name, "virtual", expr=num(v))
                 else:
